@@ -21,7 +21,7 @@ def theorems(pid):
     p = os.path.join(ROOT, "lean", "TangeloProofs", "Props", pid + ".lean")
     if not os.path.exists(p):
         return []
-    return re.findall(r"^theorem\s+([A-Za-z0-9_'.]+)", open(p).read(), flags=re.M)
+    return re.findall(r"^theorem\s+([A-Za-z0-9_'.?]+)", open(p).read(), flags=re.M)
 
 
 out = [open(os.path.join(ROOT, "docs", "design_head.md")).read()]
